@@ -8,8 +8,11 @@
 //! test entry point `verif::c31` replaces it for every case it runs.
 //! `VERIF_C31_SCRIPT` optionally gives, per case (`;` separated, an empty
 //! item = the default), the order of the storage calls: `a<index>` appends
-//! the entry, `c<index>` commits up to the index, `w` waits until every
-//! entry committed so far has been executed.
+//! the entry, `r<index>` appends another entry for an index that is still
+//! uncommitted (what a new leader's append does to a follower: the entry
+//! and everything after it is replaced; its user is `user<index>r`),
+//! `c<index>` commits up to the index, `w` waits until every entry
+//! committed so far has been executed.
 
 use std::collections::HashMap;
 use std::sync::Mutex;
@@ -136,7 +139,8 @@ async fn c31() -> crate::server_error::ServerResult<()> {
 
             for (op, index) in script {
                 match op {
-                    'a' => {
+                    'a' | 'r' => {
+                        let suffix = if op == 'r' { "r" } else { "" };
                         raft.storage
                             .append(
                                 Log {
@@ -144,7 +148,7 @@ async fn c31() -> crate::server_error::ServerResult<()> {
                                     index,
                                     term: 1,
                                     data: ClusterAction::UserAdd(UserAdd {
-                                        user: format!("user{index}"),
+                                        user: format!("user{index}{suffix}"),
                                         password: vec![index as u8],
                                         salt: vec![1],
                                     }),
@@ -183,6 +187,11 @@ async fn c31() -> crate::server_error::ServerResult<()> {
         for index in &indexes {
             if let Some(id) = server_db.find_user_id(&format!("user{index}")).await? {
                 users.push((id.0, *index));
+            }
+
+            // the user of a replacing entry is reported as index + 1000
+            if let Some(id) = server_db.find_user_id(&format!("user{index}r")).await? {
+                users.push((id.0, *index + 1000));
             }
         }
 
